@@ -1039,12 +1039,11 @@ func c14Exec(r *sim.Run, sci interface{}) {
 		hist = append(hist, c14Rec{id, "conn(" + mode + ")", inv, ret, fmt.Sprintf("restored %d", restored)})
 		r.Eventf("%s conn %s -> restored %d (%d,%d)", id, mode, restored, inv, ret)
 		afterMutation(id)
-		// Session.store hands every snapshot to its own goroutine; two snapshots
-		// taken without the task parking in between (CONNECT's updateEGName and the
-		// SUBSCRIBE right behind it) can reach the storage in either order. That
-		// race belongs to the session properties (C16), not to routing: park here
-		// so that the connect's snapshot is persisted before the next one is taken.
-		r.Sleep(0)
+		// no scheduling point here on purpose: CONNECT's session snapshot
+		// (updateEGName) and the one of the SUBSCRIBE/UNSUBSCRIBE right behind it
+		// travel to the storage in goroutines of their own; since the fix
+		// "session snapshots must not reach the storage out of order" doStore
+		// drops an overtaken snapshot, which a cleanSession=false reconnect relies on.
 		if fatal {
 			return nil
 		}
@@ -1252,18 +1251,20 @@ func c14Exec(r *sim.Run, sci interface{}) {
 			return
 		}
 		inv := r.Seq()
+		had := 0
 		if !call("closeAndDelSession", func() {
 			if brokerInitiated {
 				cn.c.close()
 			}
 			cn.c.closeAndDelSession()
+			// the reference follows before anything else can be scheduled
+			had = ref.disconnect(id, func(f string) bool { return c14InTrie(mgr.root, f, id) })
 			b.removeClient(id)
 		}) {
 			return
 		}
 		ret := r.Seq()
 		delete(conns, id)
-		had := ref.disconnect(id, func(f string) bool { return c14InTrie(mgr.root, f, id) })
 		if had > 0 {
 			if !final {
 				r.Probe("disc.mid_history_with_live_subscriptions")
